@@ -50,6 +50,13 @@ def render(cases, cxx):
         lines.append(inner_decl(n, c, c["mark"] == "opaque-annotation"))
         lines.append("struct C%04d { char pre; struct %s m; struct %s arr[2]; struct %s *p; short post; };" % (k, n, n, n))
         lines.append("void use_%s(struct %s v, const struct %s *q);" % (n, n, n))
+        # containers that reach the marked type through exactly one kind of use
+        lines.append("struct A%04d { struct %s only_arr[2]; };" % (k, n))
+        lines.append("struct M%04d { struct %s only_arr2[2][2]; int tail; };" % (k, n))
+        lines.append("struct P%04d { struct %s *only_ptr; };" % (k, n))
+        # a function and a variable that share the marked type's name (separate C name spaces)
+        if not cxx:
+            lines.append("int %s(int x);" % n)
         if cxx:
             lines.append("struct D%04d : %s { int own; };" % (k, n))
             lines.append("template<class T> struct W%04d { T t; int n; };\nstruct U%04d { W%04d<%s> w; };" % (k, k, k, n))
@@ -63,7 +70,7 @@ def flags_for(cases):
         if c["mark"] == "blocklist":
             il = c["inner"]
             fl += ["--blocklist-type", n, "--raw-line",
-                   "#[repr(C, align(%d))] #[derive(Copy, Clone)] pub struct %s(pub [u8; %d]);" % (il["align"], n, il["size"])]
+                   "#[repr(C, align(%d))] #[derive(Copy, Clone)] pub struct %s { pub _b: [u8; %d] }" % (il["align"], n, il["size"])]
         elif c["mark"] == "opaque-option":
             fl += ["--opaque-type", n]
     return fl
@@ -160,7 +167,7 @@ def one_language(res, tier, cases, cxx):
         shape = "%s:%s:%s" % (c["mark"], c["attr"], tag)
         defs = structs.get(n, [])
         if c["mark"] == "blocklist":
-            if len(defs) != 1 or defs[0]["fields"] != [["0", "[u8 ; %d]" % c["inner"]["size"], True]]:
+            if len(defs) != 1 or defs[0]["fields"] != [["_b", "[u8 ; %d]" % c["inner"]["size"], True]]:
                 res.violation("blocklisted-type-defined:" + shape, {"type": n, "definitions": [d.get("tokens") for d in defs]})
             if n in comps:
                 res.violation("blocklisted-type-went-through-codegen:" + shape, {"type": n})
@@ -180,6 +187,14 @@ def one_language(res, tier, cases, cxx):
             e = comps.get(n)
             if e and (not e["is_opaque"] or e["size"] != cl[n]["size"] or e["align"] != cl[n]["align"]):
                 res.violation("opaque-comp-event-numbers:" + shape, {"type": n, "event": [e["size"], e["align"]], "clang": cl[n]})
+        # a blocklist / opaque marking of a *type* must not touch a function of the same name
+        if not cxx and ("pubfn%s(x:" % n) not in uses:
+            res.violation("function-sharing-the-marked-types-name-missing:" + shape, {"name": n})
+        # single-use containers: array / nested array / pointer of the marked type
+        for pre in ("A", "M", "P"):
+            cn2 = "%s%04d" % (pre, k)
+            if len(structs.get(cn2, [])) != 1:
+                res.violation("single-use-container-missing:" + shape, {"type": cn2})
         # spec vs environment
         if c["inner"]["size"] != cl[n]["size"] or c["inner"]["align"] != cl[n]["align"] or \
                 c["container"]["size"] != cl[cn]["size"] or c["container"]["offsets"] != cl[cn]["offsets"]:
